@@ -372,6 +372,7 @@ def check_buffered_open(cx, rep):
 
 
 def check(repo, rep):
+    from ..semantic import deep_leaves, evaluator, Undecided
     cx = Ctx(repo)
     rep.cx = cx
     srcs = concrete_sources(cx)
@@ -445,6 +446,43 @@ def check(repo, rep):
         for im, ic, ifn in impl:
             for l in split_ites(cx.leaves_of(im, ic, ifn)):
                 size_none = any((ct == ('cmp', 'is', ('p', 'size'), ('c', None)) and tr) or ((g := norm_cmp(ct, tr)) and g[0] == '<' and g[1] == ('p', 'size') and g[2] == ('c', 0)) for ct, tr, _ in l.conds)
+                # ... or decided by values: None, a negative and a positive size are taken through the path's tests on `size`
+                try:
+                    takers_ = []
+                    tested_ = False
+                    for sz_ in (None, -1, 0, 3):
+                        ok_ = True
+                        for ct, tr, _ in l.conds:
+                            if not any(x == ('p', 'size') for x in walk(ct)):
+                                continue
+                            try:
+                                e_ = evaluator({('p', 'size'): sz_})
+                                got_ = e_.ev(ct)
+                            except NotEvaluable:
+                                continue
+                            if e_.leaves:
+                                continue
+                            tested_ = True
+                            if bool(got_) != tr:
+                                ok_ = False
+                                break
+                        if ok_:
+                            takers_.append(sz_)
+                    if not tested_:
+                        takers_ = []                  # the path does not test the size at all: nothing to classify by values
+                    if takers_ and set(takers_) <= {None, -1}:
+                        size_none = True
+                    elif takers_ and set(takers_) <= {0, 3}:
+                        size_none = False
+                    elif takers_ and 0 in takers_ and (None in takers_ or -1 in takers_):
+                        # read(0) shares a path with "read everything": a zero-size request would return all that remains
+                        reads_all_ = any(e[0] == 'call' and e[1][0] == 'call' and e[1][1][0] == 'attr' and e[1][1][2] in ('read', 'readframes') and e[1][1][1] != ('self',) and e[1][2] and e[1][2][0] in (('c', None), ('c', -1)) for e in l.effects)
+                        if reads_all_:
+                            rep.ob('a zero-size read does not take the read-everything path (only None / negative sizes do)', False, cx.where(im, l.node if l.node is not None else ifn), '%s.%s:zero-reads-all' % (tag, ifn.name),
+                                   'sizes %s take the path that asks the stream for everything' % takers_)
+                        size_none = True
+                except Undecided:
+                    pass
                 for e in l.effects:
                     t = e[1]
                     if e[0] == 'call' and t[0] == 'call' and t[1][0] == 'attr' and t[1][2] in ('read', 'readframes') and t[1][1] != ('self',) and t[2]:
